@@ -334,6 +334,12 @@ func RunProperty(p *Property, tier string, self string) int {
 	if reported > 0 {
 		return 1
 	}
+	for k := range total.Skips {
+		if strings.HasPrefix(k, "HARNESS-BUG") {
+			fmt.Fprintln(os.Stderr, "the harness itself failed on some cases (see above); this is not a verdict about the property:", k)
+			return 2
+		}
+	}
 	return 0
 }
 
